@@ -87,9 +87,10 @@ Fixpoint decode_all (fuel : nat) (s : rstate) : list msg * ending :=
 Definition decode (bs : bytes) (orc : list Z) := decode_all (S (length bs)) {| avail := bs; oracle := orc |}.
 
 Definition byte_ok (b : Z) : Prop := 0 <= b < 256.
+(* the header fields must be representable; the payload is opaque to the frame layer (no condition on its bytes) *)
 Definition msg_wf (m : msg) : Prop :=
   -128 <= mty m < 128 /\ -2147483648 <= mcid m < 2147483648 /\
-  Z.of_nat (length (mdata m)) < 2147483648 /\ Forall byte_ok (mdata m).
+  Z.of_nat (length (mdata m)) < 2147483648.
 
 (* ---- concurrent senders: each thread has a list of messages to send; a step of thread t
    appends one whole frame (atomic write, shape SingleCall / under a lock) *)
